@@ -167,7 +167,8 @@ func ldapSetup(w *vfWorld) {
 						if authutil.Argon2CompareHashAndPassword(jstr(pl, "data"), []byte(pw)) == nil &&
 							jnum(pl, "exp") >= time.Now().Add(96*time.Hour).Unix()-5 {
 							ok = true
-							w.recInfo[jws] = &vfRecInfo{User: user, Pw: pw, Exp: time.Unix(jnum(pl, "exp"), 0)}
+							// the statement's own bound (96 hours after the confirming login), not whatever the record claims
+							w.recInfo[jws] = &vfRecInfo{User: user, Pw: pw, Exp: time.Now().Add(96 * time.Hour)}
 							w.lastRecord[user] = jws
 							w.replayed[user] = false
 						}
@@ -265,6 +266,22 @@ func genLdapPlan(r *rand.Rand, tier string) *vfPlan {
 			allDown("up")
 		case x < 80:
 			add(vfStep{Op: "advance", D: pick(r, []string{"1s", "1h", "47h", "95h59m", "96h1m", "97h", "10s"})})
+		case x < 82:
+			// a confirmed login, the unsigned expiry column pushed out, the record's 96 hours pass, the directory goes away
+			add(vfStep{Op: "login", Sess: pick(r, vfSessNames), User: u, B: "form"})
+			if chance(r, 0.5) {
+				add(vfStep{Op: "sync"})
+			}
+			add(vfStep{Op: "tamper", User: u, Target: u, A: "extend", B: pick(r, []string{"cache", "primary", "primary"})})
+			if chance(r, 0.4) {
+				add(vfStep{Op: "tamper", User: u, Target: u, A: "extend", B: "cache"})
+			}
+			add(vfStep{Op: "advance", D: pick(r, []string{"96h1m", "97h", "95h59m", "200h"})})
+			allDown(pick(r, []string{"down", "refuse", "error"}))
+			if chance(r, 0.3) {
+				add(vfStep{Op: "outage"})
+			}
+			add(vfStep{Op: "login", Sess: pick(r, vfSessNames), User: u, B: "form"})
 		case x < 85:
 			add(vfStep{Op: "sync"})
 		case x < 89:
